@@ -139,9 +139,44 @@ def rule_filter(ctx: Ctx, rule: str = "C12.allproviders"):
                 found_name = show(e.term)
         val = {}
         other = []
+        compound = []
+
+        def atom_of(x, spec=spec):
+            if isinstance(x, ast.Compare) and len(x.ops) == 1 and isinstance(x.ops[0], (ast.In, ast.NotIn)):
+                l, r = show(x.left), show(x.comparators[0])
+                if l == f"{spec}.reference" and r == allowed:
+                    return "ALLOWED" if isinstance(x.ops[0], ast.In) else None
+                if l == f"{spec}.func" and isinstance(x.ops[0], ast.In):
+                    return "FOUND"
+            if show(x) == f"{spec}.is_convention":
+                return "CONVENTION"
+            return None
+
         for b in [x for x in evs if x.kind == "branch" and x.idx > its[0].idx]:
             t = expand1(b.term, evs)
             txt = show(t)
+            if isinstance(t, (ast.BoolOp, ast.UnaryOp)) or (isinstance(t, ast.Compare) and isinstance(t.ops[0], ast.NotIn)):
+                # a compound condition (e.g. the value of a helper predicate): kept whole, evaluated per valuation below
+                from .. import boolfn as _bf
+
+                class _NI(ast.NodeTransformer):
+                    def visit_Compare(self, n_):
+                        if len(n_.ops) == 1 and isinstance(n_.ops[0], ast.NotIn):
+                            return ast.UnaryOp(op=ast.Not(), operand=ast.Compare(left=n_.left, ops=[ast.In()], comparators=n_.comparators))
+                        return n_
+
+                t2 = _NI().visit(__import__("copy").deepcopy(t))
+                try:
+                    _bf.evaluate(t2, atom_of, {"ALLOWED": True, "CONVENTION": True, "FOUND": True})
+                    for c_ in ast.walk(t2):
+                        if isinstance(c_, ast.Compare) and show(c_.left) == f"{spec}.func":
+                            rdef = xshow(c_.comparators[0], evs)
+                            if rdef != f"{rs.params[1]}.conventional_specs & self.all_attrs":
+                                wrong_found.add(rdef)
+                    compound.append((t2, b.x["taken"], atom_of))
+                    continue
+                except _bf.Unrecognised:
+                    pass
             if isinstance(t, ast.Compare) and len(t.ops) == 1 and isinstance(t.ops[0], ast.In):
                 l, r = show(t.left), show(t.comparators[0])
                 if l == f"{spec}.reference" and r == allowed:
@@ -160,20 +195,23 @@ def rule_filter(ctx: Ctx, rule: str = "C12.allproviders"):
                 continue
             other.append(txt)
         reached = any(c.kind == "call" and show(c.term.func) == "self.build" and c.idx > its[0].idx for c in evs)
-        rows.append((val, reached, other))
+        rows.append((val, reached, other, compound))
     if not rows:
         raise AnalysisError("anchor lost: spec loop of Listeners.resolve")
     for w in sorted(wrong_found):
         rep.violation(rule, rs.loc(), "a convention name counts as 'found' by looking at something other than the attribute names of ALL providers",
                       rs.key, f"found set is `{w}`")
-    unknown = sorted({o for _, _, os_ in rows for o in os_})
+    unknown = sorted({o for _, _, os_, _c in rows for o in os_})
     if unknown:
         rep.unrecognised(rule, rs.loc(), f"resolve() conditions the registration on `{unknown[0]}`")
     bad = []
     for combo in itertools.product([True, False], repeat=3):
         full = dict(zip(("ALLOWED", "CONVENTION", "FOUND"), combo))
         want = full["ALLOWED"] and (not full["CONVENTION"] or full["FOUND"])
-        outcomes = {reached for val, reached, _ in rows if all(full[k_] == v for k_, v in val.items())}
+        from .. import boolfn as _bf
+
+        outcomes = {reached for val, reached, _, comp_ in rows if all(full[k_] == v for k_, v in val.items())
+                    and all(bool(_bf.evaluate(t_, af_, full)) == pol_ for t_, pol_, af_ in comp_)}
         if outcomes != {want}:
             bad.append(f"{full} -> registered={sorted(outcomes)} expected {want}")
     rep.check(not bad, rule, rs.loc(), "a spec is resolved exactly when its reference kind is allowed and, if it is a naming-convention spec, "
